@@ -139,8 +139,9 @@ def r3(ctx):
     t = norm(tv.node)
     ok = "for row in self.__structure:" in t and "term_variables[row[0]] = Variable.union(*(term.variables for term in row[1]))" in t
     ctx.check(ok, "C10.R3", "term_variables reads the scoped terms of the same structure row", tv.where, ctx.construct(tv, text="term_variables"), "row pairing changed")
-    from .c17 import alias_round_trip
+    from .c17 import alias_round_trip, variable_traversal
     alias_round_trip(ctx, "C10.R3")
+    variable_traversal(ctx, "C10.R3")
     rv = P.method(MS, "required_variables", inherited=False)
     t = norm(rv.node)
     ok = "return self.variables_by_source.get('data', set())" in t and "if self.structure is None:" in t
@@ -166,4 +167,14 @@ def r4(ctx):
               "the missing-terms check changed")
 
 
-RULES = [("C10.R1", r1), ("C10.R2", r2), ("C10.R3", r3), ("C10.R4", r4)]
+
+def r5(ctx):
+    """a subset (or the spec itself) regenerates the parent's columns: recorded structure is replayed faithfully (= C04.R3) and the
+    caller's context / drop set reach the materializer on every path (= C05.R3)."""
+    from .shared import relabel, forward_rule
+    from . import c04
+    from .c05 import forward_data_context
+    relabel(ctx, "C10.R5", c04.r3, lambda c: forward_data_context(c, "C10.R5", "context"), lambda c: forward_data_context(c, "C10.R5", "data"))
+
+
+RULES = [("C10.R1", r1), ("C10.R2", r2), ("C10.R3", r3), ("C10.R4", r4), ("C10.R5", r5)]
